@@ -16,11 +16,14 @@ func VerifC14Custom() {
 	a0, a1, a2, a3 := w.newConn(), w.newConn(), w.newConn(), w.newConn()
 	b0, n0 := w.newConn(), w.newConn()
 	a0.mustJoin("")
-	a1.mustJoin(a0.sid)
-	a2.mustJoin(a0.sid)
-	// a session of three or of four members; the list may be longer than the session is large
-	small := verifnd.Bool()
-	if !small {
+	// the sender alone, or a session of three or of four members; the list may be longer than the session is large
+	size := verifnd.Choice(3)
+	small := size <= 1
+	if size >= 1 {
+		a1.mustJoin(a0.sid)
+		a2.mustJoin(a0.sid)
+	}
+	if size == 2 {
 		a3.mustJoin(a0.sid)
 	}
 	b0.mustJoin("")
